@@ -320,7 +320,7 @@ func TestC34_RaceWorkload(t *testing.T) {
 		}
 
 		// workload
-		kinds := []string{"tun", "tun", "tun", "tunBurst", "rehandshake", "close", "closeAll", "reloadFirewall", "reloadLighthouse", "reloadPunchy",
+		kinds := []string{"tun", "tun", "tun", "tunBurst", "rehandshake", "close", "closeAll", "reloadFirewall", "reloadLighthouse", "reloadPunchy", "reloadStaticMap",
 			"listHosts", "listIndexes", "getHostInfo", "queryLH", "rebind", "setRemote", "printTunnel", "certByAddr"}
 		nWorkers := rapid.IntRange(2, 6).Draw(rt, "workers")
 		work := make([][]c34Op, nWorkers)
@@ -366,7 +366,7 @@ func TestC34_RaceWorkload(t *testing.T) {
 						n.ctrl.CloseTunnel(p.addr, op.N%2 == 0)
 					case "closeAll":
 						n.ctrl.CloseAllTunnels(op.N%2 == 0)
-					case "reloadFirewall", "reloadLighthouse", "reloadPunchy":
+					case "reloadFirewall", "reloadLighthouse", "reloadPunchy", "reloadStaticMap":
 						mc := nsM{}
 						if yaml.Unmarshal([]byte(n.rawCfg), &mc) != nil {
 							continue
@@ -382,6 +382,20 @@ func TestC34_RaceWorkload(t *testing.T) {
 								lh["interval"] = 1 + op.N%3
 								lh["remote_allow_list"] = nsM{"0.0.0.0/0": true}
 							}
+						case "reloadStaticMap":
+							// drop or (re)add static hosts: exercises the lighthouse's static-map reload path
+							shm, _ := mc["static_host_map"].(nsM)
+							if shm == nil {
+								shm = nsM{}
+							}
+							if op.N%2 == 0 {
+								for k := range shm {
+									delete(shm, k)
+									break
+								}
+							}
+							shm[fmt.Sprintf("10.128.0.%d", 100+op.N)] = []string{fmt.Sprintf("10.0.0.%d:4242", 100+op.N)}
+							mc["static_host_map"] = shm
 						case "reloadPunchy":
 							mc["punchy"] = nsM{"punch": op.N%2 == 0, "respond": op.N%3 == 0, "delay": "10ms"}
 						}
